@@ -451,9 +451,33 @@ pub fn chain_step<S: Src, const START: u8, const PRE: u8, const OP: u8>(s: &mut 
 }
 
 /// `==` of two chains after one symbolic push each <=> equal (start, moves, outcome)
+/// second start: 0 = same position, 1 = same squares but another half-move clock and move number,
+/// 2 = same squares without castling rights, 3 = another stated position
+fn variant_board(start: u8, variant: u8) -> Board {
+    let b = start_board(start);
+    let mut r = *b.raw();
+    match variant {
+        0 => b,
+        1 => {
+            r.move_counter = r.move_counter.wrapping_add(7);
+            r.move_number = r.move_number.wrapping_add(3);
+            Board::try_from(r).unwrap()
+        }
+        2 => {
+            r.castling = CastlingRights::EMPTY;
+            Board::try_from(r).unwrap()
+        }
+        _ => start_board((start + 1) % N_START),
+    }
+}
+
 pub fn chain_eq<S: Src, const START: u8>(s: &mut S) {
     let (mut c1, mut m1) = build(START, 0);
-    let (mut c2, mut m2) = build(if s.bool() { START } else { (START + 1) % N_START }, 0);
+    let v = s.below(4);
+    let b2 = variant_board(START, v);
+    // (build() resets the shared repetition store; it is not inspected in this harness)
+    let mut c2: Chain = BaseMoveChain::new(b2.clone());
+    let mut m2 = Model::new(b2);
     let a = any_m(s);
     vassume!(wf_ref(a));
     let b = any_m(s);
@@ -479,6 +503,8 @@ pub fn chain_eq<S: Src, const START: u8>(s: &mut S) {
     let want = m1.boards[0].as_ref().unwrap().raw() == m2.boards[0].as_ref().unwrap().raw() && m1.len == m2.len && m1.moves[0] == m2.moves[0] && m1.outcome == m2.outcome;
     vassert!("chains compare equal exactly when start, move list and outcome are equal", (c1 == c2) == want);
     vcover!("equal chains with a move", want && m1.len == 1);
+    vcover!("different starts whose current positions coincide after the same move", !want && m1.len == 1 && m2.len == 1 && m1.moves[0] == m2.moves[0]
+        && m1.outcome == m2.outcome && m1.cur().raw() == m2.cur().raw());
     vcover!("same start, different move", !want && m1.len == 1 && m2.len == 1 && m1.outcome == m2.outcome && m1.boards[0].as_ref().unwrap().raw() == m2.boards[0].as_ref().unwrap().raw());
     core::mem::forget(c1);
     core::mem::forget(c2);
